@@ -33,7 +33,7 @@ theorem step_kind {s s' : St} {op : Op} {o : Out} (h : step s op = some (s', o))
     obtain ⟨s3, spent, _, _, _, _, _, _, _, _, _, _, _, h12, _, rfl⟩ := swapIn_spec h
     have e := h12.same
     simp only [SameCfg] at e
-    obtain ⟨_, _, _, _, _, _, _, _, _, _, e11, e12⟩ := e
+    obtain ⟨_, _, _, _, _, _, _, _, _, _, e11, e12, _⟩ := e
     refine Or.inl ⟨?_, ?_⟩
     · cases d <;> simpa [St.setBal, swapMid, St.touch, St.setR] using e11
     · cases d <;> simpa [St.setBal, swapMid, St.touch, St.setR] using e12
@@ -41,7 +41,7 @@ theorem step_kind {s s' : St} {op : Op} {o : Out} (h : step s op = some (s', o))
     obtain ⟨s3, spent, _, _, _, _, _, _, _, _, _, _, _, h12, _, rfl⟩ := swapOut_spec h
     have e := h12.same
     simp only [SameCfg] at e
-    obtain ⟨_, _, _, _, _, _, _, _, _, _, e11, e12⟩ := e
+    obtain ⟨_, _, _, _, _, _, _, _, _, _, e11, e12, _⟩ := e
     refine Or.inl ⟨?_, ?_⟩
     · cases d <;> simpa [St.setBal, swapMid, St.touch, St.setR] using e11
     · cases d <;> simpa [St.setBal, swapMid, St.touch, St.setR] using e12
@@ -54,8 +54,8 @@ theorem step_kind {s s' : St} {op : Op} {o : Out} (h : step s op = some (s', o))
     have e1 := r1.same
     have e2 := r2.same
     simp only [SameCfg] at e1 e2
-    obtain ⟨_, _, _, _, _, _, _, _, _, _, a11, a12⟩ := e1
-    obtain ⟨_, _, _, _, _, _, _, _, _, _, b11, b12⟩ := e2
+    obtain ⟨_, _, _, _, _, _, _, _, _, _, a11, a12, _⟩ := e1
+    obtain ⟨_, _, _, _, _, _, _, _, _, _, b11, b12, _⟩ := e2
     refine Or.inl ⟨?_, ?_⟩
     · rw [b11, a11]; rfl
     · rw [b12, a12]; rfl
@@ -82,6 +82,17 @@ theorem step_kind {s s' : St} {op : Op} {o : Out} (h : step s op = some (s', o))
       simp only [Option.some.injEq, Prod.mk.injEq] at h
       obtain ⟨rfl, _⟩ := h
       exact Or.inr (Or.inl ⟨hr, rfl, rfl, rfl, rfl⟩)
+    · simp at h
+  case lock =>
+    simp only [Option.map_eq_some_iff, Prod.mk.injEq] at h
+    obtain ⟨s1, h1, rfl, _⟩ := h
+    obtain ⟨_, dl, ul, sc, rfl⟩ := lockCfg_spec h1
+    exact Or.inr (Or.inl ⟨Nat.le_refl _, rfl, rfl, rfl, rfl⟩)
+  case epoch =>
+    split at h
+    · simp only [Option.some.injEq, Prod.mk.injEq] at h
+      obtain ⟨rfl, _⟩ := h
+      exact Or.inr (Or.inl ⟨Nat.le_refl _, rfl, rfl, rfl, rfl⟩)
     · simp at h
 
 theorem next_round (o : Obs) (now r1 r2 S : Nat) : (o.next now r1 r2 S).round = now := rfl
